@@ -167,6 +167,7 @@ type vCoreV1 struct {
 }
 
 func (c *vCoreV1) Pods(ns string) corev1client.PodInterface { return &vPods{w: c.w, ns: ns} }
+func (c *vCoreV1) Events(ns string) corev1client.EventInterface { return nil }
 func (c *vCoreV1) PersistentVolumeClaims(ns string) corev1client.PersistentVolumeClaimInterface {
 	return &vPVCs{w: c.w, ns: ns}
 }
@@ -745,7 +746,7 @@ func vNewSet(replicas int32) *apps.StatefulSet {
 				ObjectMeta: metav1.ObjectMeta{Labels: map[string]string{"app": "web"}, Annotations: map[string]string{vVariantK: "B"}},
 				Spec:       v1.PodSpec{Containers: []v1.Container{{Name: "c", Image: "nginx"}}},
 			},
-			VolumeClaimTemplates: []v1.PersistentVolumeClaim{{ObjectMeta: metav1.ObjectMeta{Name: "data"}}},
+			VolumeClaimTemplates: []v1.PersistentVolumeClaim{{ObjectMeta: metav1.ObjectMeta{Name: "data", Labels: map[string]string{"tier": "storage"}}}},
 			ServiceName:          "svc",
 			PodManagementPolicy:  apps.OrderedReadyPodManagement,
 			UpdateStrategy:       apps.StatefulSetUpdateStrategy{Type: apps.RollingUpdateStatefulSetStrategyType, RollingUpdate: &apps.RollingUpdateStatefulSetStrategy{Partition: &part}},
